@@ -49,17 +49,14 @@ impl<'a> SourceParser<'a> {
     }
     loop {
       match self.token_producer.next_token(self.heap, self.error_set) {
-        Some(Token(loc, TokenContent::LineComment(text))) => {
+        Some(Token(_, TokenContent::LineComment(text))) => {
           self.pending_comments.push(Comment { kind: CommentKind::LINE, text });
-          self.last_location = loc;
         }
-        Some(Token(loc, TokenContent::BlockComment(text))) => {
+        Some(Token(_, TokenContent::BlockComment(text))) => {
           self.pending_comments.push(Comment { kind: CommentKind::BLOCK, text });
-          self.last_location = loc;
         }
-        Some(Token(loc, TokenContent::DocComment(text))) => {
+        Some(Token(_, TokenContent::DocComment(text))) => {
           self.pending_comments.push(Comment { kind: CommentKind::DOC, text });
-          self.last_location = loc;
         }
         Some(token) => {
           self.peeked = Some(token);
